@@ -23,6 +23,7 @@ LEVEL_TEXT += (" (E7.o) a token that may be absent is tested only after whitespa
 LEVEL_TEXT += (" (E7.p) every call of a parse_* function or mandatory token is made in the whitespace-skipped state, except four adjacent pairs of the grammar; (E7.c) consume_token decides on starts_with(token) alone.")
 LEVEL_TEXT += (' (E7.eof) no top-level item — nor the file loop — has a successful path whose last look at the input is an end-of-input-fatal `peek()?`.')
 
+LEVEL_TEXT += (' (E7.kind) `{…}` parses to SetLiteral / SetComprehension, `[…]` to the list forms; E7.p also covers the peeks that decide how a whitespace-skipping function goes on.')
 POS_FIELDS = ("offset", "location", "chars")
 
 
@@ -31,6 +32,29 @@ def _after_keyword(hay):
     """the text right after the keyword at the parser position: `rest[keyword.len()..]` or the payload of `rest.strip_prefix(keyword)`"""
     return ("RangeFrom{str::len(&*arg:keyword)}" in hay and "arg:self.offset" in hay) or \
         re.search(r"\(str::strip_prefix\(.*arg:self\.offset.*, arg:keyword\) as Some\)\.0", hay) is not None
+
+
+def literal_kinds(prog, rep, rule="E7.kind"):
+    """`{ … }` parses to a set form and `[ … ]` to a list form: the AST types built by parse_set / parse_list"""
+    rep.rule(rule, "parse_set builds only SetLiteral / SetComprehension, parse_list only ListLiteral / ListComprehension (a one-element `{x}` is a set)")
+    n = 0
+    for fn, allowed in (("parse_set", {"SetLiteral", "SetComprehension"}), ("parse_list", {"ListLiteral", "ListComprehension"})):
+        fl = [f for f in prog.shape_fns() if f.name == fn and f.self_path == "tsg::parser::Parser" and f.body is not None]
+        if len(fl) != 1:
+            rep.violation(rule, "anchor-lost:%s" % fn, "", "not found")
+            continue
+        f = fl[0]
+        built = {}
+        for b in sorted(f.body.reachable()):
+            for st in f.body.blocks[b]["stmts"]:
+                if st["k"] == "assign" and st["rv"]["k"] == "aggregate" and (st["rv"].get("adt") or "").startswith("tsg::ast::") and \
+                        (st["rv"].get("adt") or "").rsplit("::", 1)[-1] in ("SetLiteral", "SetComprehension", "ListLiteral", "ListComprehension"):
+                    built.setdefault(st["rv"]["adt"].rsplit("::", 1)[-1], sp_str(st["sp"]))
+        n += 1
+        wrong = sorted(set(built) - allowed)
+        rep.check(bool(built) and not wrong and allowed <= set(built), rule, "%s :: forms" % fn, f.loc(), "builds %s" % sorted(built),
+                  "%s builds %s (%s): a literal written with %s is loaded as the other collection kind" % (fn, sorted(built), ", ".join("%s at %s" % (w, built[w]) for w in wrong) or "missing %s" % sorted(allowed - set(built)), "{ }" if fn == "parse_set" else "[ ]"))
+    return n
 
 
 def run(prog, rep):
@@ -103,6 +127,8 @@ def run(prog, rep):
                   "'\\n' → row+1, column=0; otherwise column+1 (one per character)", "Location::advance is not `newline: row+1,col=0 / else col+1`: %s" % shape)
     else:
         rep.violation("E7.w", "anchor-lost:Location::advance", "", "not found")
+    nk = literal_kinds(prog, rep)
+    rep.floor("E7.kind", nk, 2, "collection literal parsers")
     # ---- E7.h: what the parser does next depends on the text at the position, not on what it has parsed before
     rep.rule("E7.h", "no parse decision depends on parser state other than the position: a Parser field that is written after construction (besides offset / location / chars) is never tested by a branch of the parser")
     padt = prog.adts.get("tsg::parser::Parser")
